@@ -29,7 +29,6 @@ import (
 	"sort"
 	"strings"
 	"sync"
-	"time"
 
 	jose "github.com/go-jose/go-jose/v4"
 
@@ -37,7 +36,6 @@ import (
 	"verif/internal/keys"
 	"verif/internal/mon"
 	"verif/internal/opdrv"
-	"verif/internal/sched"
 	"verif/internal/vstore"
 )
 
@@ -63,7 +61,7 @@ func Run(run *ev.Run) {
 	log.SetOutput(io.Discard) // op.hostFromForwarded logs every malformed Forwarded header through the std logger
 	defer log.SetOutput(oldLog)
 
-	sched.Install() // the library's spans become yield points (ctxend.go); inert for goroutines that are not registered
+	installSpans() // the library's spans become positions at which a request context can be ended (ctxend.go)
 	run.Assume("front http: requests are built the way net/http's server hands them to a handler (request target accepted by url.ParseRequestURI, header values and Host accepted by httpguts; what the server itself answers 400 to is repaired before execution and counted)",
 		"front http: a mutating storage call is one of vstore.Entry.Mutating(); 'after the error response' = journal Seq greater than the recorder's FirstWriteSeq within the same request, on a store that serves one request at a time")
 	var mand []string
@@ -131,8 +129,6 @@ func Run(run *ev.Run) {
 			if c >= 0 {
 				runCase(run, fl, 0, c, opdrv.RouterProvider)
 				runCase(run, fl, 0, c, opdrv.RouterLegacy)
-				runCtxCase(run, fl, 0, c, opdrv.RouterProvider)
-				runCtxCase(run, fl, 0, c, opdrv.RouterLegacy)
 			}
 		}
 		return
@@ -143,17 +139,6 @@ func Run(run *ev.Run) {
 	ev.Parallel(n, 0, func(worker, i int) {
 		runCase(run, fl, worker, i, opdrv.RouterProvider)
 		runCase(run, fl, worker, i, opdrv.RouterLegacy)
-	})
-	// cancellation at a point (ctxend.go): worlds of their own, after the fuzz batch - while a request is traced or
-	// parked, every yield point of every goroutine pays for a goroutine look-up, so the two do not run side by side
-	n2 := run.N(ctxCasesQuick, ctxCasesThorough)
-	t2 := time.Now()
-	defer func() {
-		run.Extra("http_ctx_end_batch_informational", map[string]any{"cases": n2, "wall_seconds": float64(time.Since(t2).Milliseconds()) / 1000})
-	}()
-	ev.Parallel(n2, 0, func(worker, i int) {
-		runCtxCase(run, fl, worker, i, opdrv.RouterProvider)
-		runCtxCase(run, fl, worker, i, opdrv.RouterLegacy)
 	})
 	fl.done()
 }
@@ -178,6 +163,7 @@ func runCase(run *ev.Run, fl *inflight, worker, caseIdx, router int) {
 	}
 	x.fl = fl
 	x.fr = run.CaseRand(streamStorErr, caseIdx)
+	x.cr = run.CaseRand(streamCtxEnd, caseIdx)
 	run.Count("http:world_caps", v.Caps.String())
 	run.Count("http:world_issuer_mode", v.IssuerMode)
 	if pi := mon.Catch(func() {
@@ -206,6 +192,8 @@ func runCase(run *ev.Run, fl *inflight, worker, caseIdx, router int) {
 		// fault at a point x error value: requests valid as drawn against a storage whose method M answers a value
 		// of the catalogue
 		x.storageErrorSweep(router)
+		// cancellation at a point: requests valid as drawn under a context that ends at a drawn position
+		x.ctxEndSweep(router)
 	}); pi != nil {
 		// panics inside handlers are caught by opdrv.Serve; what arrives here blew up in the generator or oracle
 		run.HarnessBug(fmt.Sprintf("fronthttp: case %d router %s: %s at %s\n%s", caseIdx, x.rname, pi.Value, pi.Frame, trim(pi.Stack, 3000)))
